@@ -422,11 +422,22 @@ impl G<'_> {
             3 => format!("{{ const {} = 1; return () => {} }}", pick(self.r, &["_slot", "x", "_createVNode"]), self.jsx(2)),
             _ => format!("{}", self.jsx(1)),
         };
+        // a generic setup function (Vue 3.3): type parameters whose constraints / defaults may refer to each other
+        let generics = match self.r.below(10) {
+            0 => "<T extends string,>",
+            1 => "<T extends U, U extends T,>",
+            2 => "<T extends U, U extends V, V extends U,>",
+            3 => "<T = U, U = T,>",
+            4 => "<T extends T0, U extends T['a'],>",
+            5 => "<T extends { a: T },>",
+            _ => "",
+        };
+        let p0 = if !generics.is_empty() && self.r.chance(60) { p0.replacen(&props_ty, "T", 1) } else { p0 };
         let func = match self.r.below(6) {
-            0 => format!("function ({p0}{p1}) {}", if body.starts_with('{') { body.clone() } else { format!("{{ return {body} }}") }),
-            1 => format!("async ({p0}{p1}) => {body}"),
-            2 => format!("function named({p0}{p1}) {{}}"),
-            _ => format!("({p0}{p1}) => {body}"),
+            0 => format!("function {}({p0}{p1}) {}", generics.replace(",>", ">"), if body.starts_with('{') { body.clone() } else { format!("{{ return {body} }}") }),
+            1 => format!("async {generics}({p0}{p1}) => {body}"),
+            2 => format!("function named{}({p0}{p1}) {{}}", generics.replace(",>", ">")),
+            _ => format!("{generics}({p0}{p1}) => {body}"),
         };
         let func = if self.r.chance(6) { pick(self.r, &["setupFn", "{ setup() {} }", "{ props: { a: String }, setup(props) {} }", "...fns"]).to_string() } else { func };
         let opts = match self.r.below(12) {
